@@ -56,7 +56,7 @@ register(PropertySpec(
              "(shared with C20) result caches are on by default: a coverage test that over-approximates loses rows on re-evaluation of any query"),
         Rule("CLEAR-COMPLETE", _lazy("cacheidx", "rule_clear_complete"), 4,
              "(shared with C20) clearing an index (after an abandoned evaluation; a class's registry store) empties every store and withdraws the coverage marks"),
-        Rule("REENTRANT-FLAG", _lazy("values", "rule_reentrant_flag"), 1,
+        Rule("REENTRANT-FLAG", _lazy("values", "rule_reentrant_flag"), 9,
              "(shared with C19) one attribute expression used as operand and as condition in the same query"),
         Rule("DECL-FILTER", _lazy("predform", "rule_decl_filter"), 5,
              "(shared with C13) the type filter of a supplied domain is lazy (an eagerly built empty list counts as no domain: the registry) and uses the class being constructed"),
@@ -117,6 +117,10 @@ register(PropertySpec(
              "an expression that finds itself bound already (a condition object used twice) sets its truth flag from the bound value before handing the binding on"),
         Rule("BIND-THREAD", _lazy("binding", "rule_bind_thread"), 30,
              "the operand a negated conjunction / disjunction evaluates under its sibling's row receives the incoming binding too (nesting under an operator that bound a variable already)"),
+        Rule("NEG-HONOURED", _lazy("negation", "rule_neg_honoured"), 4,
+             "the flag not_ flips on a leaf is read by every class that has it, and an operand without it is refused"),
+        Rule("NEG-IN-PLACE", _lazy("negation", "rule_neg_in_place"), 1,
+             "not_(c) leaves c what it was (a leaf is negated on a copy)"),
     ],
     explanation="Negation is a rewrite at construction time, so it is a function on syntax and is decided from the "
                 "source: the inverse-operator table is extracted by abstract evaluation of the setter's CFG (match / if "
@@ -242,6 +246,8 @@ register(PropertySpec(
              "an iteration over a lazily consumed domain is handed what other live iterations pulled from the shared source"),
         Rule("SOURCE-NOT-DELEGATED", _lazy("lazy", "rule_source_not_delegated"), 1,
              "an iteration over a lazily consumed domain does not delegate to the shared one-shot source (closing the iteration would close the source)"),
+        Rule("QUERY-FRESH-STATE", _lazy("history", "rule_query_fresh_state"), 2,
+             "every evaluation of a quantified query (nested, selected, used as a domain) starts by resetting the duplicate-suppression state below it"),
     ],
     explanation="History independence is absence of residue on the shared expression nodes. Decided: where residue is "
                 "written (discovered mechanically from dataclass fields and mutation sites reachable from evaluation "
@@ -296,6 +302,8 @@ register(PropertySpec(
              "a lookup that leaves a cache key open is answered from the wildcard child or from the children that bind the key, not both (one result is stored under partial and full rows)"),
         Rule("QUANT-NOT-STRIPPED", _lazy("subquery", "rule_quant_not_stripped"), 1,
              "where a quantified sub-query is replaced by its selected variable, the quantifier (its conditions) is handed on as well"),
+        Rule("QUERY-FRESH-STATE", _lazy("history", "rule_query_fresh_state"), 2,
+             "every evaluation of a quantified query (nested, selected, used as a domain) starts by resetting the duplicate-suppression state below it"),
     ],
     explanation="The three outcomes of `the` are decided by a typestate interpretation of its evaluator over the finite "
                 "state space (result None/solution, solutions consumed 0/1/>=2, _is_false_), exception classes resolved "
@@ -339,6 +347,8 @@ register(PropertySpec(
              "only the confirmed builders hand a supplied domain to a Variable; anywhere else the domain is filtered by the variable's type first"),
         Rule("QUANT-NOT-STRIPPED", _lazy("subquery", "rule_quant_not_stripped"), 1,
              "where a quantified sub-query is replaced by its selected variable, the quantifier (its conditions) is handed on as well"),
+        Rule("QUERY-FRESH-STATE", _lazy("history", "rule_query_fresh_state"), 2,
+             "every evaluation of a quantified query (nested, selected, used as a domain) starts by resetting the duplicate-suppression state below it"),
     ],
     explanation="Decides: exactly-one-row by counting yields over all CFG paths; and interface agreement among the "
                 "implementations of the evaluation protocol (a concatenate used where the protocol passes "
@@ -386,6 +396,8 @@ register(PropertySpec(
              "when the branches before an alternative yield no row at all, their truth flag is set to false before the alternative's rows are handed on"),
         Rule("DEDUP-UNDER-ROW-TRUTH", _lazy("binding", "rule_dedup_under_row_truth"), 5,
              "a row is tested for being a duplicate under the truth value it is handed on with (the flag is not assigned between the test and the yield)"),
+        Rule("CONCLUSION-VARS-BOUND", _lazy("ruletree", "rule_conclusion_vars_bound"), 1,
+             "the variables a conclusion mentions and the fired row lacks are bound (each value) before the conclusion is applied"),
     ],
     explanation="Attaching a branch rewires the condition tree in place; evaluation follows the left/right fields, not "
                 "the graph edges, so a selector that is attached in the graph but not stored in its parent's operand slot "
@@ -651,7 +663,7 @@ register(PropertySpec(
              "every evaluation call site is classified value/condition by the resolved field of its receiver; at every "
              "value-role site the callee is entered through a value-role entry whose per-class constant switches the "
              "filter off exactly for the filter-owning classes"),
-        Rule("REENTRANT-FLAG", values.rule_reentrant_flag, 1,
+        Rule("REENTRANT-FLAG", values.rule_reentrant_flag, 9,
              "a mapping generator reads the request for false rows from its own call's argument, not from the attribute a "
              "re-entrant evaluation of the same (shared) expression object overwrites"),
         Rule("APPLY-ALWAYS", _lazy("extra", "rule_apply_always"), 1,
@@ -879,6 +891,8 @@ register(PropertySpec(
              "two wrapped values are the same exactly when their identifiers agree (equality = the identifier, which the hash is)"),
         Rule("EVAL-FLAG", _lazy("history", "rule_eval_flag"), 3,
              "flags that say 'this part is being evaluated' are cleared on every exit, also when the evaluation is abandoned - a stale flag changes which rows the next evaluation yields"),
+        Rule("QUERY-FRESH-STATE", _lazy("history", "rule_query_fresh_state"), 2,
+             "every evaluation of a quantified query (nested, selected, used as a domain) starts by resetting the duplicate-suppression state below it"),
     ],
     explanation="All clauses are weak but necessary: arguments evaluated under the current binding, one construction "
                 "per combination, no retrieval instead of construction for inferred variables, existing objects passed "
@@ -978,6 +992,8 @@ register(PropertySpec(
              "(shared with C19) a sub-query used as an operand or constructor argument is evaluated as a value"),
         Rule("LOGIC-TRUTH", _lazy("logic", "rule_logic_truth"), 12,
              "(shared with C01) & and | over sub-queries combine the truth flags the quantifiers report"),
+        Rule("QUERY-FRESH-STATE", _lazy("history", "rule_query_fresh_state"), 2,
+             "every evaluation of a quantified query (nested, selected, used as a domain) starts by resetting the duplicate-suppression state below it"),
     ],
     explanation="Decides the structural clauses of the three mechanisms the property is anchored in: (1) a quantifier node in "
                 "the middle of a tree is transparent for truth (same truth table as its conditions, request for false rows passed "
